@@ -116,7 +116,7 @@ def run_case(spec):
     try:
         prob = boundgen.problem(rng, shape, d, n_live=int(rng.integers(250, 600)))
         if opts.get('force_periodic') and prob['periodic'] is None:
-            prob['periodic'] = np.sort(rng.choice(d, int(rng.integers(1, d + 1)), replace=False))
+            prob['periodic'] = rng.choice(d, int(rng.integers(1, d + 1)), replace=False)
         if kind == 'NautilusBound' and not opts.get('force_periodic') and shape != 'wrapped':
             prob['periodic'] = None
         if opts.get('pool'):
